@@ -13,7 +13,7 @@ PER_INST = "results are per instantiation of the monomorphised functions, N in {
 PROPS = {
     "C07": {
         "level": "proof",
-        "units": ["ps", "keys", "pedersen", "cor_ps", "lemmas_ps", "lemmas_algebra"],
+        "units": ["ps", "keys", "pedersen", "cor_ps", "lemmas_ps", "lemmas_algebra"], "kani": ["secret_key_scalars_own_draws_n2"],
         "assumptions": [
             PER_INST,
             "key well-formedness (ps_key_ok) is established by KeyPair::new (C19) or by decode-time validation (C15)",
@@ -26,7 +26,7 @@ PROPS = {
         "level": "proof",
         "units": ["sproof", "ps", "keys", "cor_ps", "cor_sproof", "lemmas_ps", "lemmas_schnorr"],
         "scans": ["verified_blinded_message_sites"],
-        "kani": ["g1_codec_validates"],
+        "kani": ["g1_codec_validates", "secret_key_scalars_own_draws_n2"],
         "assumptions": [PER_INST, "a request arriving from the wire has its G1 atoms decoded by the element codec, which is shown to accept exactly what bls12_381's validating decoder accepts (prime-order subgroup membership is that decoder's documented contract)", "PS unforgeability and discrete-log binding are cryptographic hypotheses, not decided here"],
         "trusted_base": CRYPTO_AXIOMS,
     },
@@ -78,7 +78,7 @@ PROPS = {
     },
     "C19": {
         "level": "proof",
-        "units": ["keys", "sampling", "lemmas_ps", "ps", "za_config"], "kani": ["secret_key_scalars_nonzero_n1", "secret_key_scalars_nonzero_n2"], "kani_thorough": ["range_params_sign_each_digit"],
+        "units": ["keys", "sampling", "lemmas_ps", "ps", "za_config"], "kani": ["secret_key_scalars_nonzero_n1", "secret_key_scalars_nonzero_n2", "secret_key_scalars_own_draws_n2", "secret_key_scalars_own_draws_n3"], "kani_thorough": ["range_params_sign_each_digit"],
         "assumptions": [
             PER_INST,
             "termination of rejection-sampling loops is not proved (an all-zero RNG never terminates)",
@@ -88,7 +88,7 @@ PROPS = {
     },
     "C01": {
         "level": "proof",
-        "units": ["za_merchant", "sproof", "cproof", "challenge", "transcripts", "cor_merchant", "lemmas_schnorr", "lemmas_ps"],
+        "units": ["za_merchant", "sproof", "cproof", "challenge", "transcripts", "cor_merchant", "lemmas_schnorr", "lemmas_ps"], "kani": ["secret_key_scalars_own_draws_n2"],
         "scans": ["verified_blinded_state_sites", "verified_blinded_close_state_sites", "verified_blinded_message_sites"],
         "assumptions": [
             "Fiat-Shamir in the random-oracle model and the forking step (from one accepting proof to two transcripts) are cryptographic, outside any program logic; discrete-log binding of the commitments",
